@@ -69,7 +69,7 @@ def dag_spec(draw, max_models=5, kinds=None, with_thru=True, offsets=True, max_c
             iname = f"i{len(ins[names[j]])}"
             ins[names[j]].append(iname)
             off = starts[i] != comp_start
-            how = draw(st.integers(0, 11)) if with_thru else 11
+            how = draw(st.integers(0, 15)) if with_thru else 15
             if how <= 2:
                 # through a new pull-based component
                 tn = f"T{thr}"
@@ -113,6 +113,27 @@ def dag_spec(draw, max_models=5, kinds=None, with_thru=True, offsets=True, max_c
                 links.append([names[i], "o", c0, ta, "In"])
                 links.append([ta, "Out", c1, tb, "In"])
                 links.append([tb, "Out", c2, names[j], iname])
+            elif how in (6, 7):
+                # fan-out of a pull-based output to two inputs (same or different consumers) asking for different
+                # times. Without help this is known finding F12; a further pull-based component on the producer's
+                # output that nobody reads pulls once at connect and thereby keeps the producer's history alive.
+                t0, kp = f"T{thr}", f"T{thr + 1}"
+                thr += 2
+                comps.append({"kind": "thru", "name": t0})
+                comps.append({"kind": "thru", "name": kp})
+                links.append([names[i], "o", [], kp, "In"])
+                c0, e0 = sanitize(draw(st.lists(adapter([k for k in thru_up if k in ("scale", "cb", "dfix")]), max_size=1)) if thru_up else [], off)
+                excl += e0
+                links.append([names[i], "o", c0, t0, "In"])
+                j2 = draw(st.sampled_from([j] + [x for x in range(i + 1, n)]))
+                iname2 = f"i{len(ins[names[j2]])}"
+                ins[names[j2]].append(iname2)
+                dl = [k for k in thru_down if k in ("scale", "dfix")]
+                for jj, inn in ((j, iname), (j2, iname2)):
+                    cc, ee = sanitize(draw(st.lists(adapter(dl), max_size=2)) if dl else [], off)
+                    excl += ee
+                    links.append([t0, "Out", cc, names[jj], inn])
+                excl.append("info:pull-based-fanout-with-history-keeper")
             else:
                 c, e = sanitize(draw(st.lists(adapter(kinds), min_size=0, max_size=max_chain)), off)
                 excl += e
